@@ -217,6 +217,7 @@ class Obligation:
     axioms: list = field(default_factory=list)
     vars: dict = field(default_factory=dict)  # name -> term, for counter-model extraction
     lemmas: tuple = ()  # bounded lemmas assumed on this path before the obligation
+    inputs: frozenset = frozenset()  # names in `vars` that are inputs of the function (parameters, ghosts)
 
     def key(self):
         h = hashlib.sha1()
@@ -432,6 +433,7 @@ class Path:
             oid='', kind=kind, pc=list(self.pc), goal=goal,
             lineno=getattr(node, 'lineno', None), note=note, tag=tag,
             axioms=list(self.path_axioms), vars=dict(self.vars), lemmas=tuple(sorted(self.used_lemmas)),
+            inputs=frozenset(getattr(self, 'input_names', ()) or ()),
         )
         self.obls.append(ob)
         # assume it afterwards so one failure is reported once
@@ -1302,6 +1304,12 @@ class Interp:
                 except Ret:
                     pass
                 return
+            if attr not in obj.f and self.w.registry.classes.get(obj.cls, {}).get('attrview'):
+                # attribute table view: obj.name = v  is a store into the table
+                k = z3.StringVal(attr)
+                obj.f['dkeys'] = z3.Store(obj.f['dkeys'], k, True)
+                obj.f['dvals'] = z3.Store(obj.f['dvals'], k, self.to_val(v, node))
+                return
             if attr not in obj.f and attr in self.w.registry.classes.get(obj.cls, {}).get('untracked', ()):
                 # a field outside every contract's view of this class: the store cannot change a tracked field
                 # (distinct attribute, no setter); reads of it yield an unknown value
@@ -1426,6 +1434,8 @@ class Interp:
             return {'True': True, 'False': False, 'None': None}[name]
         if name == 'inspect':
             return PyConst('module', 'inspect')
+        if name == 'dataclasses':
+            return PyConst('module', 'dataclasses')
         if self.w.exc.known(name):
             return PyConst('excclass', self.w.exc.resolve(name))
         if name in BUILTINS:
@@ -1447,6 +1457,9 @@ class Interp:
             return PyConst('module', 'ast')
         if name == 'UndefinedType':
             return PyConst('astclass', 'UndefinedType')
+        if name == 'Undefined':
+            # tatsu.util.undefined.Undefined: the single instance of UndefinedType
+            return Val.vobj(z3.IntVal(self.kind_id('UndefinedType')), z3.IntVal(0))
         if name in ('closedlist', 'list', 'tuple', 'dict', 'set', 'str', 'int', 'bool', 'frozenset', 'float', 'type'):
             return PyConst('builtin', name)
         # module-level function or constant of the module being interpreted
@@ -1623,6 +1636,10 @@ class Interp:
             return a.kind == b.kind and a.name == b.name
         if isinstance(a, PRec) or isinstance(b, PRec):
             return False
+        undef = Val.vobj(z3.IntVal(self.kind_id('UndefinedType')), z3.IntVal(0))
+        if S.is_val(a) and S.is_val(b) and (a.eq(undef) or b.eq(undef)):
+            # identity with the singleton Undefined is equality of values
+            return a == b
         self.oos('`is` between non-None values', n)
 
     def contains(self, container, x, n):
@@ -2174,6 +2191,11 @@ class Interp:
                 if c is not None and not self.w.registry.force_inline(key) and self._self_sort_fits(c, obj.cls):
                     return BoundMeth(obj, fn.name, c)
                 return BoundMeth(obj, fn.name, Closure(fn, {}, where[0], where[1]))
+            if self.w.registry.classes.get(obj.cls, {}).get('attrview'):
+                k = z3.StringVal(attr)
+                if not self.spec:
+                    self.p.oblige('safety', z3.Select(obj.f['dkeys'], k), n, f'attribute {attr} present (AttributeError)', tag='safety')
+                return z3.Select(obj.f['dvals'], k)
             if 'dkeys' in obj.f or 'okeys' in obj.f:
                 return BoundMeth(obj, attr, PyConst('dictmethod', attr))
             if 'mkeys' in obj.f:
@@ -2248,8 +2270,8 @@ class Interp:
     def _self_sort_fits(self, c, cls) -> bool:
         """a contract stated for one representation of `self` is not used for another one"""
         variants = getattr(c, 'variants', [c])
-        srt = variants[0].sig.get('self')
-        return srt is None or srt.split('{')[0].strip() == cls
+        srts = [v.sig.get('self') for v in variants]
+        return any(srt is None or srt.split('{')[0].strip() == cls for srt in srts)
 
     def wrap_field(self, v, get, set_):
         """mutable z3 records read from a field become write-through views."""
@@ -2271,6 +2293,10 @@ class Interp:
             if attr == 'walk':
                 return PyConst('builtin', 'ast_walk')
             return PyConst('astclass', attr)
+        if c.kind == 'module' and c.name == 'dataclasses':
+            if attr in ('replace', 'is_dataclass'):
+                return PyConst('builtin', f'dataclasses_{attr}')
+            self.oos(f'dataclasses.{attr}', n)
         if c.kind == 'module':
             return self.global_name(attr, n)
         if c.kind in ('class', 'record'):
@@ -2365,7 +2391,8 @@ class Interp:
         if isinstance(f, ast.Attribute) and isinstance(f.value, ast.Call) and isinstance(f.value.func, ast.Name) \
                 and f.value.func.id == 'super' and not f.value.args:
             me = self.env.get('self')
-            if (isinstance(me, PRec) and 'okeys' in me.f) or self.dictview(me) is not None:
+            attrview = isinstance(me, PRec) and self.w.registry.classes.get(me.cls, {}).get('attrview')
+            if not attrview and ((isinstance(me, PRec) and 'okeys' in me.f) or self.dictview(me) is not None):
                 return BoundMeth(me, f.attr, PyConst('dictmethod', 'super.' + f.attr))
             return BoundMeth(me, f.attr, PyConst('supermethod', f.attr))
         if isinstance(f, ast.Attribute) and f.attr in LIST_MUT:
@@ -2501,7 +2528,9 @@ class Interp:
         self.oos(f'spec function statement {type(s).__name__}', s)
 
     def call_contract(self, c, recv, args, kwargs, n):
-        from .contracts import apply_contract, bind_params
+        from .contracts import VariantSet, apply_contract, bind_params, pick_variant
+        if isinstance(c, VariantSet):
+            c = pick_variant(self, c, recv, args, kwargs, n)
         if self.spec and getattr(c, 'pure', False) and not c.modifies and not c.raises:
             from .contracts import _pure_result
             env = bind_params(self, c, recv, args, kwargs, n)
@@ -2528,6 +2557,75 @@ class Interp:
 
     def ex_ListComp(self, n):
         self.oos('list comprehension', n)
+
+    def _comp_cond(self, gen, bind):
+        """the conjunction of a comprehension's `if` clauses for the bound variables, evaluated without forking
+        (calls of local closures are unfolded as if/return chains)"""
+        sub = Interp(self.p, self.module, dict(self.env), spec=True, cls=self.cls, fname=self.fname + '<comp>')
+        sub.contract = self.contract
+        sub.functional_calls = True
+        bind(sub)
+        conds = []
+        for c in gen.ifs:
+            t = sub.truth(sub.ev(c), c)
+            conds.append(t if z3.is_expr(t) else z3.BoolVal(bool(t)))
+        return z3.And(*conds) if conds else z3.BoolVal(True)
+
+    def ex_DictComp(self, n):
+        """{k: v for k, v in D.items() if COND(k, v)}  -- a filter of a string-keyed dict:
+        a new dict with  keys'[k] == (keys[k] and COND(k, vals[k]))  for all k, and the same values."""
+        if len(n.generators) != 1:
+            self.oos('dict comprehension with several loops', n)
+        gen = n.generators[0]
+        it = gen.iter
+        if not (isinstance(it, ast.Call) and isinstance(it.func, ast.Attribute) and it.func.attr == 'items' and not it.args
+                and isinstance(gen.target, ast.Tuple) and len(gen.target.elts) == 2
+                and all(isinstance(e, ast.Name) for e in gen.target.elts)
+                and isinstance(n.key, ast.Name) and isinstance(n.value, ast.Name)
+                and n.key.id == gen.target.elts[0].id and n.value.id == gen.target.elts[1].id):
+            self.oos('dict comprehension that is not a filter `{k: v for k, v in d.items() if ...}`', n)
+        src = self.ev(it.func.value)
+        dv = self.dictview(src)
+        if dv is None and S.is_val(src):
+            self.p.oblige('type', Val.is_vdict(src), n, '.items() on a dict value')
+            keys, vals = Val.dkeys(src), Val.dvals(src)
+        elif dv is not None:
+            keys, vals = dv[0](), dv[2]()
+        else:
+            self.oos('dict comprehension over something that is not a string-keyed dict', n)
+        k = self.p.fresh('k', z3.StringSort())
+        kn, vn = gen.target.elts[0].id, gen.target.elts[1].id
+        cond = self._comp_cond(gen, lambda sub: (sub.env.__setitem__(kn, k), sub.env.__setitem__(vn, z3.Select(vals, k))))
+        newkeys = self.p.fresh('filtered', keys.sort())
+        ax = z3.ForAll([k], z3.Select(newkeys, k) == z3.And(z3.Select(keys, k), cond))
+        self.p.path_axioms.append(ax)
+        self.p.pc.append(ax)
+        return PRec('DictD', {'dkeys': newkeys, 'dvals': vals})
+
+    def ex_SetComp(self, n):
+        """{k for k in D if COND(k)} over the keys of a string-keyed dict (or a set of strings)"""
+        if len(n.generators) != 1 or not isinstance(n.generators[0].target, ast.Name) or not isinstance(n.elt, ast.Name) \
+                or n.elt.id != n.generators[0].target.id:
+            self.oos('set comprehension that is not a filter `{k for k in d if ...}`', n)
+        gen = n.generators[0]
+        src = self.ev(gen.iter)
+        dv = self.dictview(src)
+        if dv is not None:
+            keys = dv[0]()
+        elif S.is_val(src):
+            self.p.oblige('type', Val.is_vdict(src), n, 'iteration over a dict value')
+            keys = Val.dkeys(src)
+        elif z3.is_expr(src) and z3.is_array(src) and src.sort().domain() == z3.StringSort():
+            keys = src
+        else:
+            self.oos('set comprehension over something that is not a string-keyed dict or set', n)
+        k = self.p.fresh('k', z3.StringSort())
+        cond = self._comp_cond(gen, lambda sub: sub.env.__setitem__(gen.target.id, k))
+        newkeys = self.p.fresh('filtered', keys.sort())
+        ax = z3.ForAll([k], z3.Select(newkeys, k) == z3.And(z3.Select(keys, k), cond))
+        self.p.path_axioms.append(ax)
+        self.p.pc.append(ax)
+        return newkeys
 
     def ex_GeneratorExp(self, n):
         return GenExp(n, self)
@@ -2566,7 +2664,7 @@ BUILTINS = {
     'len', 'isinstance', 'bool', 'int', 'str', 'min', 'max', 'range', 'all', 'any', 'getattr', 'hasattr',
     'callable', 'next', 'iter', 'enumerate', 'abs', 'repr', 'sorted', 'hash', 'issubclass', 'super', 'print', 'id',
     'ord', 'chr', 'zip', 'sum', 'old', 'int_ok', 'uint_ok', 'float_ok', 'implies', 'type', 'dict_with', 'dict_get',
-    'dict_has', 'seq_eq', 'out_ok', 'out_frame', 'out_ret', 'out_cut', 'out_fail_frame', 'exc_inside', 'exc_is', 'boundcall', 'top_only', 'store', 'o_none', 'o_ok', 'same_func', 'ismethod', 'is_func', 'ast_walk', 'format', 'is_ok', 'is_err', 'ok_res', 'is_failure', 'grown', 'memo_ok', 'outcome_ok', 'submap', 'forall_keys', 'exists_key', 'is_suffix',
+    'dict_has', 'seq_eq', 'out_ok', 'out_frame', 'out_ret', 'out_cut', 'out_fail_frame', 'exc_inside', 'exc_is', 'boundcall', 'top_only', 'store', 'o_none', 'o_ok', 'same_func', 'ismethod', 'is_func', 'ast_walk', 'format', 'is_ok', 'is_err', 'ok_res', 'is_failure', 'grown', 'memo_ok', 'outcome_ok', 'submap', 'forall_keys', 'exists_key', 'is_suffix', 'dataclasses_replace', 'dataclasses_is_dataclass',
 }
 
 
